@@ -37,6 +37,7 @@ from pynguin.testcase.execution_isolation import (
     OutputSuppressionContext,
     PatchRandomOnUnpickle,
     _make_deterministic,
+    preserve_stdin_and_logging,
     suppress_logging,
 )
 from pynguin.testcase.execution_observers import (
@@ -382,22 +383,25 @@ class TestCaseExecutor(AbstractTestCaseExecutor):
                 args=(test_case, output_suppression_context, return_queue),
                 daemon=True,
             )
-            thread.start()
-            thread.join(
-                timeout=min(
-                    self._maximum_test_execution_timeout,
-                    self._test_execution_time_per_statement * test_case.size(),
+            with preserve_stdin_and_logging():
+                thread.start()
+                thread.join(
+                    timeout=min(
+                        self._maximum_test_execution_timeout,
+                        self._test_execution_time_per_statement * test_case.size(),
+                    )
                 )
-            )
-            if thread.is_alive():
-                # Kills the thread
-                self._subject_properties.instrumentation_tracer.stop()
-                # Wait for the thread so that stdout/stderr is not redirected anymore
-                _LOGGER.debug("Waiting for thread to finish")
-                thread.join(timeout=self._maximum_test_execution_timeout)
-                # Restore stdout and stderr if it was not already done by the thread
-                _LOGGER.debug("Restoring stdout and stderr")
-                output_suppression_context.restore()
+                timed_out = thread.is_alive()
+                if timed_out:
+                    # Kills the thread
+                    self._subject_properties.instrumentation_tracer.stop()
+                    # Wait for the thread so that stdout/stderr is not redirected anymore
+                    _LOGGER.debug("Waiting for thread to finish")
+                    thread.join(timeout=self._maximum_test_execution_timeout)
+                    # Restore stdout and stderr if it was not already done by the thread
+                    _LOGGER.debug("Restoring stdout and stderr")
+                    output_suppression_context.restore()
+            if timed_out:
                 result = ExecutionResult(timeout=True)
                 _LOGGER.warning("Experienced timeout from test-case execution")
             else:
